@@ -177,6 +177,19 @@ func analyseLocks(c *Ctx, pkgRel, typeName string) *lockInfo {
 		p, ok := sig.Params().At(0).Type().(*types.Pointer)
 		return ok && types.Identical(p.Elem(), tn) && fn.Parent() != nil
 	}
+	// an option can also be written as a method of a small value type whose method value has the
+	// option type: unexported method, receiver is not the client, one parameter *T, no result
+	isOptionMethod := func(fn *ssa.Function) bool {
+		sig := fn.Signature
+		if sig.Recv() == nil || fn.Object() == nil || fn.Object().Exported() || sig.Params().Len() != 1 || sig.Results().Len() != 0 {
+			return false
+		}
+		if types.Identical(deref(sig.Recv().Type()), tn) {
+			return false
+		}
+		p, ok := sig.Params().At(0).Type().(*types.Pointer)
+		return ok && types.Identical(p.Elem(), tn)
+	}
 	for _, fn := range c.allFuncs(pkgRel) {
 		touches := false
 		for _, b := range fn.Blocks {
@@ -200,7 +213,7 @@ func analyseLocks(c *Ctx, pkgRel, typeName string) *lockInfo {
 			delete(li.callSites, k)
 		}
 		for _, fn := range li.fns {
-			li.scan(c, fn, fresh, isOptionFn(fn))
+			li.scan(c, fn, fresh, isOptionFn(fn) || isOptionMethod(fn))
 		}
 		changed := false
 		for _, fn := range li.fns {
@@ -381,7 +394,7 @@ func (li *lockInfo) scan(c *Ctx, fn *ssa.Function, fresh map[*ssa.Function]bool,
 				if !types.Identical(deref(x.X.Type()), li.tn) || x.Field == li.mutex {
 					continue
 				}
-				isFresh := freshBase(x.X, fresh) || (optionFn && x.X == fn.Params[0])
+				isFresh := freshBase(x.X, fresh) || (optionFn && x.X == ssa.Value(fn.Params[len(fn.Params)-1]))
 				if fv, ok := x.X.(*ssa.FreeVar); ok {
 					_ = fv
 				}
